@@ -203,6 +203,7 @@ def run(chk):
         "from the AST."
     )
     chk.rule("R1", "every LIKE-family call passes autoescape=True or an escape= character")
+    chk.rule("R1w", "starts_with / ends_with / literal contains of every SQL back end: the term the implementation builds for each sample pattern ('', one / two characters, `%`, `_`, backslash) evaluated on sample values with the dialect's documented semantics (LIKE + escape, SQLite substr / instr / length) equals Python's str.startswith / endswith / in; NULL gives NULL")
     chk.rule("R1v", "LIKE-based operators of the SQL back ends interpreted over terms for both pattern kinds the dispatcher hands over (python string, compiled constant expression): every LIKE-family call in the statement escapes its pattern (autoescape / escape=, hand-written escaping decoded back to the pattern)")
     chk.rule("R2", "the argument of text()/literal_column()/.op() is a string constant, never built from a runtime value")
     chk.rule("R3", "every compile_lit routes the Python value through sqa.literal(.., literal_execute=True) or sqa.cast")
@@ -387,6 +388,19 @@ def run(chk):
         chk.floor("R1v", "LIKE implementations x pattern kinds", len(res_l), 16)
     except (AnalysisError, _SBl, KeyError) as e:
         chk.undecided.append(f"R1v: the LIKE-based implementations could not be interpreted ({str(e)[:140]})")
+    # R1w: the same implementations at the value level (the term each builds, evaluated on sample strings)
+    try:
+        res_w = likesim.like_value_scenarios(repo, _mo(chk).regs, _mtel(_mo(chk)))
+        n_w = 0
+        for r_, desc, ok_, detail, decided in res_w:
+            if decided:
+                n_w += 1
+                chk.ob("R1w", r_.module, r_.func, desc, ok_, detail)
+            else:
+                chk.note(f"R1w: {desc}: not evaluated ({detail})")
+        chk.floor("R1w", "string-match implementations evaluated", n_w, 5)
+    except (AnalysisError, _SBl, KeyError) as e:
+        chk.undecided.append(f"R1w: the string-match implementations could not be interpreted ({str(e)[:140]})")
     if not like_decided:
         chk.floor("R1", "LIKE-family call sites", n_like, 11)
     chk.floor("R2", "raw-text call sites", n_raw, 14)
